@@ -1,6 +1,7 @@
 package main
 
 import (
+	"bytes"
 	"encoding/json"
 	"errors"
 	"fmt"
@@ -10,6 +11,7 @@ import (
 	"github.com/nspcc-dev/neo-go/pkg/config"
 	"github.com/nspcc-dev/neo-go/pkg/core"
 	"github.com/nspcc-dev/neo-go/pkg/core/fee"
+	"github.com/nspcc-dev/neo-go/pkg/core/mempool"
 	"github.com/nspcc-dev/neo-go/pkg/core/native/nativehashes"
 	"github.com/nspcc-dev/neo-go/pkg/core/transaction"
 	"github.com/nspcc-dev/neo-go/pkg/crypto/hash"
@@ -62,6 +64,8 @@ func classify(err error) string {
 		return "err:pool-conflict"
 	case errors.Is(err, core.ErrOOM):
 		return "err:oom"
+	case errors.Is(err, mempool.ErrOracleResponse):
+		return "err:pool-oracle"
 	case strings.HasPrefix(err.Error(), "witness #"):
 		return "err:witness"
 	}
@@ -94,6 +98,7 @@ type scen struct {
 	blockedC  bool
 	accIDs    map[util.Uint160]int
 	X         *transaction.Transaction // a transaction of A that is on chain
+	sp        *specials
 }
 
 func (s *scen) id(h util.Uint160) int {
@@ -110,8 +115,8 @@ const (
 	idNotary    = 2
 )
 
-func newScen(r *prng.R, o *hx.Out, mtb int) *scen {
-	s := &scen{accIDs: map[util.Uint160]int{}}
+func newScen(r *prng.R, o *hx.Out, mtb int, kind string) *scen {
+	s := &scen{accIDs: map[util.Uint160]int{}, sp: &specials{}}
 	switch r.Intn(10) {
 	case 0, 1:
 		s.hf = "preFaun"
@@ -121,6 +126,9 @@ func newScen(r *prng.R, o *hx.Out, mtb int) *scen {
 		s.hf = "all"
 	}
 	s.p2p = r.Chance(1, 3)
+	if strings.HasPrefix(kind, "notary") {
+		s.p2p = r.Chance(3, 4)
+	}
 	s.reserved = r.Chance(1, 3)
 	o.Count("chain:hf=" + s.hf)
 	s.w = newWorld(func(c *config.Blockchain) {
@@ -212,7 +220,10 @@ func newScen(r *prng.R, o *hx.Out, mtb int) *scen {
 		}
 		addPol("setExecFeeFactor", v)
 	}
-	for _, t := range []transaction.AttrType{transaction.HighPriority, transaction.NotValidBeforeT, transaction.ConflictsT} {
+	for _, t := range []transaction.AttrType{transaction.HighPriority, transaction.NotValidBeforeT, transaction.ConflictsT, transaction.NotaryAssistedT, transaction.OracleResponseT} {
+		if t == transaction.NotaryAssistedT && !strings.HasPrefix(kind, "notary") || t == transaction.OracleResponseT && !strings.HasPrefix(kind, "oracle") {
+			continue
+		}
 		if r.Chance(1, 2) {
 			v := int64(r.Range(0, 3_000_000))
 			s.pol.attrFee[t] = v
@@ -299,6 +310,10 @@ type cand struct {
 	calcSz  int
 	need    int64
 	attrFee int64
+	// native contract signers
+	notaryWrongKey bool
+	nativeCost     map[int]int64
+	nativeRes      map[int]bool
 }
 
 func (s *scen) newCand(r *prng.R, signers []*acct, pad int) *cand {
@@ -333,7 +348,14 @@ func (c *cand) calculator() {
 	size := io.GetVarSize(c.tx)
 	c.tx.Scripts = saved
 	var exec int64
-	for _, a := range c.accts {
+	for i, a := range c.accts {
+		if a.native != "" {
+			// a test run of the native `verify`, like for any contract-based witness
+			wit, used, _ := c.nativeWitness(i)
+			exec += used
+			size += io.GetVarSize(wit.InvocationScript) + io.GetVarSize(wit.VerificationScript)
+			continue
+		}
 		if a.contract {
 			// what a wallet does for contract-based witnesses: a test run (neotest/basic.go:341-359, rpcsrv/server.go:1040-1050)
 			exec += a.cost
@@ -422,7 +444,13 @@ func (c *cand) sign() {
 	// the hash depends on everything but the witnesses
 	fresh := c.tx.Copy()
 	*c.tx = *fresh
+	c.nativeCost, c.nativeRes = map[int]int64{}, map[int]bool{}
 	for i, a := range c.accts {
+		if a.native != "" {
+			c.sigs = append(c.sigs, nil)
+			c.tx.Scripts = append(c.tx.Scripts, transaction.Witness{InvocationScript: []byte{}, VerificationScript: []byte{}})
+			continue
+		}
 		if a.contract {
 			c.sigs = append(c.sigs, nil)
 			vs := a.script // inline custom script, or nothing for a deployed contract
@@ -435,6 +463,13 @@ func (c *cand) sign() {
 		sg := a.sigs(magic, c.tx, c.which[i])
 		c.sigs = append(c.sigs, sg)
 		c.tx.Scripts = append(c.tx.Scripts, transaction.Witness{InvocationScript: invocation(sg), VerificationScript: a.script})
+	}
+	for i, a := range c.accts {
+		if a.native != "" {
+			wit, used, ok := c.nativeWitness(i)
+			c.tx.Scripts[i] = wit
+			c.nativeCost[i], c.nativeRes[i] = used, ok
+		}
 	}
 }
 
@@ -482,11 +517,26 @@ type recInfo struct {
 }
 
 type poolInfo struct {
-	dup bool
+	dup       bool
+	feeSum    int64 // fees of the payer's pooled transactions
+	oracleErr bool  // a response to the same request with at least this network fee is pooled
 }
 
 func (c *cand) witToken(i int) string {
 	w := c.tx.Scripts[i]
+	if a := c.accts[i]; a.native == "notary" {
+		sp := c.s.sp
+		sigOk := sp.notaryDesignated && !c.notaryWrongKey
+		dep := "-"
+		if c.tx.Sender() == a.hash && len(c.tx.Signers) > 1 {
+			if d := depositOf(c.s.w.bc, c.tx.Signers[1].Account); d.Sign() > 0 {
+				dep = d.String()
+			}
+		}
+		return fmt.Sprintf("NV %d %d %s", c.nativeCost[i], b2i(sigOk), dep)
+	} else if a.native == "oracle" {
+		return fmt.Sprintf("OV %d", c.nativeCost[i])
+	}
 	if a := c.accts[i]; a.contract && c.wk[i] == witGood {
 		kind := "o"
 		if !a.returns {
@@ -518,8 +568,12 @@ func (c *cand) admitLine(rec recInfo, onChainHashes map[util.Uint256]bool, p poo
 	for _, t := range []transaction.AttrType{transaction.HighPriority, transaction.OracleResponseT, transaction.NotValidBeforeT, transaction.ConflictsT, transaction.NotaryAssistedT} {
 		fmt.Fprintf(&b, " %d", s.attrFeeOf(t))
 	}
-	// committee, oracle (never designated on these chains), notary
-	fmt.Fprintf(&b, " %d - %d", idCommittee, idNotary)
+	// committee, the designated oracle nodes' account (if any), notary
+	if s.sp.oracleDesignated {
+		fmt.Fprintf(&b, " %d %d %d", idCommittee, s.id(s.sp.oracleNodes.hash), idNotary)
+	} else {
+		fmt.Fprintf(&b, " %d - %d", idCommittee, idNotary)
+	}
 	if s.blockedC {
 		fmt.Fprintf(&b, " 1 %d", s.id(s.C.hash))
 	} else {
@@ -552,7 +606,9 @@ func (c *cand) admitLine(rec recInfo, onChainHashes map[util.Uint256]bool, p poo
 		case transaction.HighPriority:
 			b.WriteString(" HP")
 		case transaction.OracleResponseT:
-			b.WriteString(" OR 0 0 0")
+			id := a.Value.(*transaction.OracleResponse).ID
+			gas, reqOk := s.sp.requests[id]
+			fmt.Fprintf(&b, " OR %d %d %d %d", id, b2i(s.sp.oracleScript != nil && bytes.Equal(tx.Script, s.sp.oracleScript)), b2i(reqOk), gas)
 		case transaction.NotValidBeforeT:
 			fmt.Fprintf(&b, " NVB %d", a.Value.(*transaction.NotValidBefore).Height)
 		case transaction.ConflictsT:
@@ -568,10 +624,13 @@ func (c *cand) admitLine(rec recInfo, onChainHashes map[util.Uint256]bool, p poo
 		}
 	}
 	bal := bc.GetUtilityTokenBalance(tx.Sender(), util.Uint160{})
+	if tx.Sender() == nativehashes.Notary && len(tx.Signers) > 1 {
+		bal = bc.GetUtilityTokenBalance(tx.Sender(), tx.Signers[1].Account) // the payer's deposit
+	}
 	if !bal.IsInt64() {
 		bal = big.NewInt(1 << 62)
 	}
-	fmt.Fprintf(&b, " %d 0 %d 0 0 0", b2i(p.dup), bal.Int64())
+	fmt.Fprintf(&b, " %d 0 %d %d %d 0", b2i(p.dup), bal.Int64(), p.feeSum, b2i(p.oracleErr))
 	return b.String()
 }
 
@@ -663,9 +722,9 @@ func submit(o *hx.Out, k int, w *world, tx *transaction.Transaction, tag string)
 var invKinds = []string{
 	"none", "none", "none", "none", "none", "none",
 	"fee-1", "fee-1", "fee-1",
-	"fee+", "expired", "vub-far", "blocked", "bad-script", "sysfee-big", "on-chain", "stub-common", "stub-disjoint", "stub-old", "stub-multi", "stub-multi", "stub-multi",
+	"fee+", "expired", "vub-far", "vub-max", "blocked", "bad-script", "sysfee-big", "on-chain", "stub-common", "stub-disjoint", "stub-old", "stub-multi", "stub-multi", "stub-multi",
 	"bad-sig", "missing-sig", "wrong-key", "empty-verif", "swapped-sigs", "nvb-future", "conflicts-dup", "conflicts-onchain",
-	"hp-no-committee", "reserved", "oracle", "notary", "no-funds", "dup-signers", "below-need", "pool-dup", "two", "noncanon",
+	"hp-no-committee", "reserved", "oracle", "notary", "no-funds", "dup-signers", "below-need", "pool-dup", "two", "noncanon", "noncanon-vm", "stale", "stale", "stale",
 	"contract", "contract", "contract-fee-1", "contract-false",
 	"at-need", "oversized", "max-size", "dup-attr", "too-many", "version", "empty-script",
 }
@@ -697,7 +756,7 @@ func runAdmit(o *hx.Out, k int, r *prng.R, inv string) {
 	case "stub-multi":
 		mtb = r.Range(2, 7)
 	}
-	s := newScen(r, o, mtb)
+	s := newScen(r, o, mtb, inv)
 	defer s.w.close()
 	w := s.w
 	o.Count("kind:admit")
@@ -753,7 +812,7 @@ func runAdmit(o *hx.Out, k int, r *prng.R, inv string) {
 		}
 	case "contract-false":
 		signers = append(signers, s.F)
-	case "noncanon":
+	case "noncanon", "noncanon-vm":
 		signers = []*acct{s.NC}
 		if r.Bool() {
 			signers = append(signers, s.A)
@@ -823,8 +882,11 @@ func runAdmit(o *hx.Out, k int, r *prng.R, inv string) {
 			expect = "reject"
 		}
 		switch what {
-		case "none", "pool-dup", "noncanon":
+		case "none", "pool-dup", "noncanon", "noncanon-vm", "stale":
 			expect = "ok"
+			if what == "stale" {
+				delta = []int64{0, 0, 1, int64(r.Range(0, 2000)), int64(r.Range(0, 3_000_000))}[r.Intn(5)]
+			}
 		case "fee-1", "contract-fee-1":
 			delta = -1
 			expect = "reject-fee"
@@ -837,6 +899,10 @@ func runAdmit(o *hx.Out, k int, r *prng.R, inv string) {
 			tx.ValidUntilBlock = height - uint32(r.Intn(2))*min(height, 1)
 		case "vub-far":
 			tx.ValidUntilBlock = height + w.bc.GetMaxValidUntilBlockIncrement() + 1 + uint32(r.Intn(3))
+		case "vub-max":
+			// the last admissible value
+			tx.ValidUntilBlock = height + w.bc.GetMaxValidUntilBlockIncrement()
+			expect = "ok"
 		case "blocked", "no-funds", "missing-sig", "swapped-sigs", "bad-sig", "wrong-key", "empty-verif":
 			// handled around signing
 		case "bad-script":
@@ -941,6 +1007,19 @@ func runAdmit(o *hx.Out, k int, r *prng.R, inv string) {
 	c.finish(delta)
 	if len(signers) <= 5 {
 		c.crossCheckNeotest(o, k)
+	}
+	if inv == "noncanon-vm" {
+		// pay what the VM really charges for every witness (observed), not what fee.Calculate says
+		var vmCost int64
+		for i := range tx.Scripts {
+			used, err := w.bc.VerifyWitness(tx.Signers[i].Account, tx, &tx.Scripts[i], 1<<40)
+			if err != nil {
+				panic(tbFail{fmt.Sprintf("noncanon-vm: witness %d does not verify: %v", i, err)})
+			}
+			vmCost += used
+		}
+		tx.NetworkFee = c.need + vmCost
+		c.sign()
 	}
 	if inv == "at-need" {
 		// exactly size*feePerByte + attribute fees: nothing left for the witnesses
@@ -1159,6 +1238,7 @@ func runAdmit(o *hx.Out, k int, r *prng.R, inv string) {
 			o.Fail("attr-fee", k, "%s: CalculateAttributesFee=%d, expected %d", inv, af, c.attrFee)
 		}
 		o.Line(c.admitLine(rec, onChain, poolInfo{}, len(raw)), verdict)
+		needLine(o, w, decoded, verdict)
 		// each standard witness on its own, with the gas that is left for it
 		gas := tx.NetworkFee - c.need
 		for i := range tx.Scripts {
@@ -1240,6 +1320,9 @@ func runAdmit(o *hx.Out, k int, r *prng.R, inv string) {
 			}
 		}
 	}
+	if decoded != nil && verdict == "ok" && w.bc.GetMemPool().ContainsKey(decoded.Hash()) && (inv == "stale" || inv == "noncanon-vm" || r.Chance(1, 4)) {
+		postState(o, k, r, c, decoded, len(raw), rec, onChain, inv, signers)
+	}
 	o.Seen(fmt.Sprintf("admit/%s/%s/%d/%d/%d/%s", inv, second, len(tx.Signers), len(tx.Attributes), len(raw), verdict))
 	if k%50 == 0 {
 		o.Sample(fmt.Sprintf("admit %s: signers %s attrs %d size %d fee %d (calc %d) -> %s", inv, acctNames(signers), len(tx.Attributes), len(raw), tx.NetworkFee, c.calc, verdict))
@@ -1297,3 +1380,150 @@ func dropAttr(as []transaction.Attribute, t transaction.AttrType) []transaction.
 	return res
 }
 
+
+// postState: the candidate is pooled; the chain moves (blocks, a Policy change by the committee, an on-chain
+// conflict) and the pool's filter IsTxStillRelevant is compared with the model's, VerifyTx on the new state with
+// the model's admission. The statement's oracle: what the filter keeps must be admissible on the new state.
+func postState(o *hx.Out, k int, r *prng.R, c *cand, decoded *transaction.Transaction, wireSize int, rec recInfo, onChain map[util.Uint256]bool, inv string, signers []*acct) {
+	s := c.s
+	w := s.w
+	tx := c.tx
+	faun := s.hf != "preFaun"
+	moves := []string{"blocks", "execfee-up", "execfee-up", "execfee-down", "feeperbyte-up", "feeperbyte-down", "vubinc-down", "attrfee-up", "block-signer", "conflict-onchain", "expire"}
+	mv := moves[r.Intn(len(moves))]
+	if inv == "noncanon-vm" {
+		mv = []string{"execfee-up", "execfee-up", "blocks", "feeperbyte-up"}[r.Intn(4)]
+	}
+	setPol := func(method string, args ...any) {
+		w.addBlock(w.policyTx(method, args...))
+	}
+	switch mv {
+	case "blocks":
+		for i := r.Range(1, 3); i > 0; i-- {
+			w.addBlock()
+		}
+	case "execfee-up", "execfee-down":
+		cur := s.pol.base
+		var v int64
+		if faun {
+			steps := []int64{1, 1, 2, 17, cur / 100, cur / 3, cur}
+			d := steps[r.Intn(len(steps))]
+			if mv == "execfee-up" {
+				v = min(cur+d, 100*10000)
+			} else {
+				v = max(cur-d, 1)
+			}
+			s.pol.base = v
+		} else {
+			f := cur / 10000
+			if mv == "execfee-up" {
+				f = min(f+int64(r.Range(1, 3)), 100)
+			} else {
+				f = max(f-int64(r.Range(1, 3)), 1)
+			}
+			v = f
+			s.pol.base = f * 10000
+		}
+		setPol("setExecFeeFactor", v)
+	case "feeperbyte-up":
+		s.pol.feePerByte += []int64{1, 1, 7, int64(r.Range(1, 3000))}[r.Intn(4)]
+		setPol("setFeePerByte", s.pol.feePerByte)
+	case "feeperbyte-down":
+		s.pol.feePerByte = max(s.pol.feePerByte-int64(r.Range(1, 500)), 0)
+		setPol("setFeePerByte", s.pol.feePerByte)
+	case "vubinc-down":
+		h := w.bc.BlockHeight() + 1 // height after the policy block
+		left := int64(tx.ValidUntilBlock) - int64(h)
+		v := left + int64(r.Range(-2, 1)) // around the boundary VUB = height + increment
+		v = max(v, 1)
+		if v >= int64(w.bc.GetMaxTraceableBlocks()) {
+			v = int64(w.bc.GetMaxTraceableBlocks()) - 1
+		}
+		setPol("setMaxValidUntilBlockIncrement", v)
+	case "attrfee-up":
+		t := transaction.ConflictsT
+		if len(tx.Attributes) > 0 {
+			t = tx.Attributes[r.Intn(len(tx.Attributes))].Type
+		}
+		if t >= transaction.ReservedLowerBound || t == transaction.OracleResponseT || t == transaction.NotaryAssistedT {
+			t = transaction.ConflictsT
+		}
+		v := s.attrFeeOf(t) + []int64{1, 1, int64(r.Range(1, 100000))}[r.Intn(3)]
+		s.pol.attrFee[t] = v
+		setPol("setAttributeFee", int64(t), v)
+	case "block-signer":
+		a := signers[r.Intn(len(signers))]
+		if a != s.C || s.blockedC {
+			mv = "blocks"
+			w.addBlock()
+			break
+		}
+		s.blockedC = true
+		setPol("blockAccount", s.C.hash)
+	case "conflict-onchain":
+		var ys []*acct
+		for _, a := range signers {
+			if !a.contract && a != s.NC && a != s.committee && !(a == s.C && s.blockedC) && (len(ys) == 0 || r.Bool()) {
+				ys = append(ys, a)
+			}
+		}
+		if len(ys) == 0 || rec.kind != "N" {
+			mv = "blocks"
+			w.addBlock()
+			break
+		}
+		y := s.newCand(r, ys, 0)
+		y.tx.Attributes = []transaction.Attribute{{Type: transaction.ConflictsT, Value: &transaction.Conflicts{Hash: tx.Hash()}}}
+		y.finish(0)
+		b := w.addBlock(y.tx)
+		rec = recInfo{kind: "S", index: b.Index}
+		for _, a := range ys {
+			rec.signers = append(rec.signers, a.hash)
+		}
+	case "expire":
+		n := int(tx.ValidUntilBlock) - int(w.bc.BlockHeight())
+		if n > 4 {
+			mv = "blocks"
+			n = 1
+		}
+		for i := 0; i < n+r.Intn(2)-1; i++ {
+			w.addBlock()
+		}
+	}
+	o.Count("stale:move=" + mv)
+	rel := w.bc.IsTxStillRelevant(decoded, nil, false)
+	line := c.admitLine(rec, onChain, poolInfo{}, wireSize)
+	o.Line("relevant"+strings.TrimPrefix(line, "admit"), fmt.Sprintf("%d", b2i(rel)))
+	inPool := w.bc.GetMemPool().ContainsKey(decoded.Hash())
+	v2 := classify(w.bc.VerifyTx(decoded))
+	o.Line(line, v2)
+	o.Count(fmt.Sprintf("stale:relevant=%v,verify=%s", rel, v2))
+	chainPart := v2 != "ok" && v2 != "err:insufficient-funds" && v2 != "err:pool-conflict"
+	if rel && chainPart {
+		key := "relevant-but-inadmissible"
+		if containsAcct(signers, s.NC) && v2 == "err:witness" {
+			// fee.Calculate, which the filter prices standard witnesses with, is below what the VM charges for this script
+			key = "calc-vs-vm-noncanonical-script"
+		}
+		o.Fail(key, k, "%s after %s: IsTxStillRelevant keeps the transaction, VerifyTx says %s (signers %s, fee %d, calc %d)", inv, mv, v2, acctNames(signers), tx.NetworkFee, c.calc)
+	}
+	if inPool && !rel && rec.kind != "S" {
+		// RemoveStale runs the filter with the block's scratch pool instead of the DAO; without an on-chain conflict both agree
+		o.Fail("pool-keeps-irrelevant-tx", k, "%s after %s: IsTxStillRelevant is false but the transaction is still pooled", inv, mv)
+	}
+	if inPool && chainPart && !(containsAcct(signers, s.NC) && v2 == "err:witness") {
+		o.Fail("pool-holds-inadmissible-tx", k, "%s after %s: still pooled, VerifyTx says %s", inv, mv, v2)
+	}
+}
+
+// needLine: needNetworkFee as the code computes it (int64: size * FeePerByte + CalculateAttributesFee) and whether
+// the verdict is "network fee too small", whenever the checks before that one passed.
+func needLine(o *hx.Out, w *world, t *transaction.Transaction, verdict string) {
+	switch verdict {
+	case "err:malformed", "err:policy-sysfee", "err:invalid-script", "err:expired", "err:not-yet-valid", "err:policy-blocked", "err:too-big", "panic":
+		return
+	}
+	af := w.bc.CalculateAttributesFee(t)
+	need := int64(t.Size())*w.bc.FeePerByte() + af
+	o.Line(fmt.Sprintf("needm %d %d %d %d", t.Size(), w.bc.FeePerByte(), af, t.NetworkFee), fmt.Sprintf("%d %d", need, b2i(verdict == "err:small-netfee")))
+}
